@@ -10,4 +10,4 @@ one() { seed=$1; out=$2; p=${seed%-*}
   echo "$seed violations=$v without-witness=$nf checker-errors=$ce :: $(echo "$o" | grep 'failed-obligation' | head -2 | cut -c1-150 | tr '\n' '|')"
   rm -rf $d; }
 export -f one
-for s in "$@"; do echo $s; done | xargs -P 4 -I{} bash -c "one {} $out"
+for s in "$@"; do echo $s; done | xargs -P ${OWN_PAR:-4} -I{} bash -c "one {} $out"
